@@ -14,7 +14,13 @@ fn oracles_for(id: &str) -> EnvOracles {
         "C14" => o.schedule = true,
         "C10" => o.invisible = true,
         "C11" => o.records = true,
-        "C12" => o.grid = true,
+        "C12" => {
+            o.grid = true;
+            // the level data an environment publishes (cached snapshot, recorded histories) must account for the
+            // resting volume exactly as the live book's does, also for prices at the ends of the range
+            o.records = true;
+            o.invisible = true;
+        }
         "C13" => o.trading = true,
         "C05" => {
             o.schedule = true;
